@@ -36,6 +36,8 @@ pub struct Eval<'a> {
     pub scn: &'a Scenario,
     pub out: &'a Outcome,
     pub geo: Box<dyn Geo>,
+    /// per problem: the geometry of its own space when it has one
+    pub pgeo: Vec<Option<Box<dyn Geo>>>,
 }
 
 pub fn fmt_state(s: &[f64]) -> String {
@@ -47,7 +49,31 @@ impl<'a> Eval<'a> {
     pub fn new(scn: &'a Scenario, out: &'a Outcome) -> Self {
         let mut geo = geo_for(&scn.space).expect("space builds");
         geo.set_worlds(&scn.worlds);
-        Eval { scn, out, geo }
+        let pgeo = scn
+            .problems
+            .iter()
+            .map(|p| {
+                p.space.as_ref().and_then(|sp| geo_for(sp).ok()).map(|mut g| {
+                    g.set_worlds(&scn.worlds);
+                    g
+                })
+            })
+            .collect();
+        Eval { scn, out, geo, pgeo }
+    }
+    /// Geometry of the space installed when call `ci` runs (the most recent problem's own space,
+    /// else the scenario's).
+    pub fn g_at(&self, ci: usize) -> &dyn Geo {
+        match installed_problem(self.scn, self.out, ci) {
+            Some((pi, _)) => self.pgeo.get(pi).and_then(|g| g.as_deref()).unwrap_or(&*self.geo),
+            None => &*self.geo,
+        }
+    }
+    pub fn space_at(&self, ci: usize) -> &SpaceSpec {
+        match installed_problem(self.scn, self.out, ci) {
+            Some((pi, _)) => self.scn.problems[pi].space.as_ref().unwrap_or(&self.scn.space),
+            None => &self.scn.space,
+        }
     }
     pub fn pk(&self) -> &'static str {
         self.scn.planner.kind.name()
@@ -177,19 +203,22 @@ impl<'a> Eval<'a> {
     /// Largest gap between accepted queries along segment a→b (ends included). Returns
     /// Some((gap, position)) when a gap exceeds the resolution.
     pub fn coverage_gap(&self, acc: &[&St], a: &[f64], b: &[f64]) -> Option<(f64, f64)> {
-        let l = self.geo.lvs();
+        self.coverage_gap_g(&*self.geo, acc, a, b)
+    }
+    pub fn coverage_gap_g(&self, geo: &dyn Geo, acc: &[&St], a: &[f64], b: &[f64]) -> Option<(f64, f64)> {
+        let l = geo.lvs();
         if !(l > 0.0) || !l.is_finite() {
             return None;
         }
-        let dab = self.geo.d(a, b);
-        let (er, ea) = self.geo.eps();
+        let dab = geo.d(a, b);
+        let (er, ea) = geo.eps();
         let lim = l * (1.0 + 1e-6 + er) + ea;
         if !(dab > lim) {
             return None;
         }
         let mut pos: Vec<f64> = Vec::new();
         for q in acc {
-            if let Some(p) = self.geo.on_segment(a, b, q, dab) {
+            if let Some(p) = geo.on_segment(a, b, q, dab) {
                 pos.push(p);
             }
         }
@@ -208,12 +237,12 @@ impl<'a> Eval<'a> {
     }
 
     /// Clause 2 of C03: an invalid stretch of true length >= 1.25 L on the segment.
-    pub fn invalid_stretch(&self, w: usize, a: &[f64], b: &[f64]) -> Option<f64> {
-        let l = self.geo.lvs();
+    pub fn invalid_stretch(&self, geo: &dyn Geo, w: usize, a: &[f64], b: &[f64]) -> Option<f64> {
+        let l = geo.lvs();
         if !(l > 0.0) || !l.is_finite() {
             return None;
         }
-        let dab = self.geo.d(a, b);
+        let dab = geo.d(a, b);
         let n = (dab / (0.25 * l)).ceil();
         if !(n >= 6.0) || n > 40_000.0 {
             return None;
@@ -221,8 +250,8 @@ impl<'a> Eval<'a> {
         let n = n as usize;
         let mut run = 0;
         for i in 0..=n {
-            let q = self.geo.interp(a, b, i as f64 / n as f64);
-            if self.geo.valid(w, &q) {
+            let q = geo.interp(a, b, i as f64 / n as f64);
+            if geo.valid(w, &q) {
                 run = 0;
             } else {
                 run += 1;
@@ -241,13 +270,14 @@ impl<'a> Eval<'a> {
         if p.len() < 2 {
             return false;
         }
+        let g = self.g_at(ci);
         let acc = self.accepted(setup_ev, self.out.calls[ci].ev_hi);
         let mut long_segments = 0;
         for i in 0..p.len() - 1 {
-            if self.geo.d(&p[i], &p[i + 1]) > self.geo.lvs() {
+            if g.d(&p[i], &p[i + 1]) > g.lvs() {
                 long_segments += 1;
             }
-            if let Some((gap, at)) = self.coverage_gap(&acc, &p[i], &p[i + 1]) {
+            if let Some((gap, at)) = self.coverage_gap_g(g, &acc, &p[i], &p[i + 1]) {
                 v.push(viol(
                     "C03",
                     format!("C03/unchecked_gap/{}", self.pk()),
@@ -255,13 +285,13 @@ impl<'a> Eval<'a> {
                         "segment #{i} {}→{} (length {}) has no accepted validity query for a stretch of {gap} starting at {at}; resolution L={}",
                         fmt_state(&p[i]),
                         fmt_state(&p[i + 1]),
-                        self.geo.d(&p[i], &p[i + 1]),
-                        self.geo.lvs()
+                        g.d(&p[i], &p[i + 1]),
+                        g.lvs()
                     ),
                 ));
                 break;
             }
-            if let Some(at) = self.invalid_stretch(w, &p[i], &p[i + 1]) {
+            if let Some(at) = self.invalid_stretch(g, w, &p[i], &p[i + 1]) {
                 v.push(viol(
                     "C03",
                     format!("C03/invalid_stretch/{}", self.pk()),
@@ -284,7 +314,7 @@ impl<'a> Eval<'a> {
         // satisfies_bounds (which is part of what is under test)
         let (_, ea) = self.geo.eps();
         let tol = ea.max(1e-9);
-        if bounds_excess(&self.scn.space, &prob.starts[0]).0 > tol {
+        if bounds_excess(self.space_at(ci), &prob.starts[0]).0 > tol {
             return false;
         }
         let hi = self.out.calls[ci].ev_hi;
@@ -292,7 +322,7 @@ impl<'a> Eval<'a> {
         for e in &self.out.log[setup_ev..hi] {
             match e {
                 Ev::SG(Some(s)) => {
-                    if bounds_excess(&self.scn.space, s).0 > tol {
+                    if bounds_excess(self.space_at(ci), s).0 > tol {
                         return false;
                     }
                     sampled.push(s);
@@ -302,7 +332,7 @@ impl<'a> Eval<'a> {
             }
         }
         for (i, s) in p.iter().enumerate() {
-            let (ex, kind) = bounds_excess(&self.scn.space, s);
+            let (ex, kind) = bounds_excess(self.space_at(ci), s);
             if ex > tol {
                 let origin = if sampled.iter().any(|q| bits_eq(q, s)) { "sampled" } else { "interpolated" };
                 v.push(viol(
